@@ -58,6 +58,15 @@ def m_any_int(ty):
     def f(ip, callee, args):
         t = ip.fresh('Int', val_of_strlike(args[0]), ty); _range_assume(ip, t, ty); return t
     return f
+def m_hash_u64(ip, callee, args):
+    """uninterpreted hash: one fresh u64 per distinct concrete byte content, per path"""
+    key = tuple(c.v for c in items_of(args[0]))
+    if any(is_sym(x) for x in key): raise Unsupported("hash of symbolic bytes")
+    if 'hash_memo' not in ip.named: ip.named['hash_memo'] = {}
+    memo = ip.named['hash_memo']
+    if key not in memo:
+        t = ip.fresh('Int', 'hash', 'u64'); _range_assume(ip, t, 'u64'); memo[key] = t
+    return memo[key]
 def m_any_bool(ip, callee, args): return ip.fresh('Bool', val_of_strlike(args[0]), 'bool')
 PRINTABLE = '(re.* (re.range " " "~"))'
 def m_any_str(ip, callee, args):
@@ -175,6 +184,10 @@ def m_replace(ip, callee, args):
                 out.append(r)
         return sconcat(out)
     return T("(str.replace_all %s %s %s)", 'String', smt_str(s), smt_str(a), smt_str(b))
+def m_replacen(ip, callee, args):
+    s, a, b, n = val_of_strlike(args[0]), pat_of(args[1]), val_of_strlike(args[2]), args[3]
+    if any(map(is_sym, (s, a, b, n))): raise Unsupported("replacen on symbolic text")
+    return s.replace(a, b, n)
 def m_str_eq(ip, callee, args):
     a, b = val_of_strlike(args[0]), val_of_strlike(args[1])
     if not is_sym(a) and not is_sym(b): return a == b
@@ -412,7 +425,7 @@ def install(ip):
     M = ip.models
     for ty in ('i32', 'i64', 'u8', 'u64', 'u128', 'usize'):
         M['vsym::any_' + ty] = m_any_int(ty)
-    M['vsym::any_bool'] = m_any_bool; M['vsym::any_str'] = m_any_str; M['vsym::any_token'] = m_any_token; M['vsym::any_ascii'] = m_any_ascii; M['vsym::choice'] = m_choice; M['vsym::param'] = m_param
+    M['vsym::any_bool'] = m_any_bool; M['vsym::any_str'] = m_any_str; M['vsym::any_token'] = m_any_token; M['vsym::any_ascii'] = m_any_ascii; M['vsym::choice'] = m_choice; M['vsym::hash_u64'] = m_hash_u64; M['vsym::param'] = m_param
     M['vsym::assume'] = m_assume; M['vsym::check'] = m_check; M['vsym::cover'] = m_cover; M['vsym::tag'] = m_tag; M['vsym::tag_i'] = m_tag_i
     M['vsym::expect_panic'] = m_expect_panic; M['vsym::spawn'] = m_spawn; M['vsym::join'] = m_join; M['vsym::yield_now'] = m_yield; M['vsym::current_tid'] = m_current_tid; M['vsym::set_cooperative'] = m_set_coop; M['vsym::is_cooperative'] = m_is_coop; M['vsym::spawn_suspended'] = m_spawn_suspended; M['vsym::resume'] = m_resume; M['vsym::suspend'] = m_suspend; M['vsym::take'] = m_take; M['vsym::block_on_lock'] = m_block_on_lock
     for k in [k for k in M if k.startswith('vsym::')]: M[k[6:]] = M[k]
@@ -426,7 +439,7 @@ def install(ip):
     M['Vec::new'] = m_vec_new; M['Vec::push'] = m_vec_push; M['Vec::len'] = m_vec_len
     ip.pattern_models = [
         (re.compile(r'impl str>::starts_with$'), m_starts_with), (re.compile(r'impl str>::ends_with$'), m_ends_with),
-        (re.compile(r'impl str>::contains$'), m_contains), (re.compile(r'impl str>::replace$'), m_replace),
+        (re.compile(r'impl str>::contains$'), m_contains), (re.compile(r'impl str>::replace$'), m_replace), (re.compile(r'impl str>::replacen$'), m_replacen),
         (re.compile(r'impl str>::trim_end_matches$'), m_trim_end_matches), (re.compile(r'impl str>::trim_matches$'), m_trim_matches),
         (re.compile(r'impl str>::splitn$'), m_splitn), (re.compile(r'impl str>::split$'), m_split), (re.compile(r'(SplitN|Split)<.* as Iterator>::next$'), m_splitn_next),
         (re.compile(r'impl str>::len$|^String::len$'), m_len),
@@ -471,6 +484,11 @@ def m_vec_remove(ip, c, a):
     lst = vec_of(a[0]).fields[0].v; i = a[1]
     if i >= len(lst): raise Panic("removal index out of bounds")
     return lst.pop(i).v
+def m_vec_insert(ip, c, a):
+    lst = vec_of(a[0]).fields[0].v; i = a[1]
+    if is_sym(i): raise Unsupported("symbolic insert index")
+    if i > len(lst): raise Panic("insertion index (is %d) should be <= len (is %d)" % (i, len(lst)))
+    lst.insert(i, Cell(a[2])); return UNIT
 def m_mem_replace(ip, c, a):
     old = a[0].cell.v; a[0].cell.v = a[1]; return old
 def m_arc_new(ip, c, a): return Agg('Arc', None, [Cell(a[0])])
@@ -494,7 +512,7 @@ def install2(ip):
         (re.compile(r'^Cell::new$'), m_cell_new), (re.compile(r'^Cell::get$'), m_cell_get), (re.compile(r'^Cell::set$'), m_cell_set),
         (re.compile(r'^<Vec<.*> as Deref(Mut)?>::deref(_mut)?$'), m_vec_deref),
         (re.compile(r'impl \[.*\]>::iter(_mut)?$'), m_slice_iter), (re.compile(r'^<std::slice::Iter(Mut)?<.*> as Iterator>::next$'), m_slice_iter_next),
-        (re.compile(r'^Option::map$'), m_option_map), (re.compile(r'^Vec::remove$'), m_vec_remove),
+        (re.compile(r'^Option::map$'), m_option_map), (re.compile(r'^Vec::remove$'), m_vec_remove), (re.compile(r'^Vec::insert$'), m_vec_insert),
         (re.compile(r'^std::mem::replace$'), m_mem_replace),
         (re.compile(r'^Arc::new$'), m_arc_new), (re.compile(r'^<Arc<.*> as Deref>::deref$'), m_arc_deref),
         (re.compile(r'^Atomic::new$'), m_atomic_new), (re.compile(r'^Atomic::load$'), m_atomic_load), (re.compile(r'^Atomic::(store|swap)$'), m_atomic_store),
@@ -595,6 +613,13 @@ def format_arguments(ip, a):
             arg = args[idx].v
             parts.append(display_value(ip, arg.fields[0].v, arg.fields[1].v if len(arg.fields) > 1 else None))
     return sconcat(parts)
+def m_panic_fmt(ip, c, a):
+    try: msg = format_arguments(ip, a[0])
+    except (Unsupported, AttributeError, IndexError, TypeError): msg = "panic with formatted message"
+    if is_sym(msg):
+        # keep the concrete parts of the message (the panic class); symbolic parts are elided
+        msg = "".join(q if isinstance(q, str) else "{}" for q in parts_of(msg))
+    raise Panic(msg)
 def m_format2(ip, c, a): return format_arguments(ip, a[0])
 def m_args_to_string(ip, c, a): return format_arguments(ip, a[0])
 def m_formatter_write_fmt(ip, c, a):
@@ -751,6 +776,14 @@ def m_vec_pop(ip, c, a):
     return opt_some(items.pop().v) if items else OPT_NONE()
 def m_atomic_fetch_add(ip, c, a):
     u = unref(a[0]); old = u.fields[0].v; u.fields[0].v = old + a[1]; return old
+def m_atomic_fetch_sub(ip, c, a):
+    u = unref(a[0]); old = u.fields[0].v
+    if is_sym(old) or is_sym(a[1]): raise Unsupported("symbolic atomic fetch_sub")
+    u.fields[0].v = (old - a[1]) % (1 << 64); return old
+def m_atomic_cmpxchg(ip, c, a):
+    u = unref(a[0]); old = u.fields[0].v
+    if ip.branch(m_generic_eq(ip, c, [old, a[1]])): u.fields[0].v = a[2]; return res_ok(old)
+    return res_err(old)
 def m_atomic_get_mut(ip, c, a): return Ref(unref(a[0]).fields[0])
 def m_string_add(ip, c, a): return sconcat([val_of_strlike(a[0]), val_of_strlike(a[1])])
 def m_opaque(ip, c, a): return Agg('Opaque', None, [])
@@ -771,7 +804,7 @@ def install7(ip):
         (re.compile(r'impl \[.*\]>::join$'), m_vec_join), (re.compile(r'impl \[.*\]>::last$'), m_vec_last),
         (re.compile(r'^Vec::is_empty$|impl \[.*\]>::is_empty$'), m_vec_is_empty), (re.compile(r'^Vec::pop$'), m_vec_pop),
         (re.compile(r'impl \[.*\]>::len$'), m_vec_len),
-        (re.compile(r'^Atomic::fetch_add$'), m_atomic_fetch_add), (re.compile(r'^Atomic::get_mut$'), m_atomic_get_mut),
+        (re.compile(r'^Atomic::fetch_add$'), m_atomic_fetch_add), (re.compile(r'^Atomic::fetch_sub$'), m_atomic_fetch_sub), (re.compile(r'^Atomic::compare_exchange$'), m_atomic_cmpxchg), (re.compile(r'^Atomic::get_mut$'), m_atomic_get_mut),
         (re.compile(r'^Result::is_ok$'), m_result_is_ok), (re.compile(r'^Option::as_ref$'), m_option_as_ref), (re.compile(r'^Option::as_deref$'), m_option_as_deref),
     ] + ip.pattern_models
 
@@ -779,7 +812,7 @@ def m_dyn_fn_call(ip, c, a):
     f = unref(a[0]); args = [x.v for x in a[1].fields] if isinstance(a[1], Agg) else []
     return ip.call_value(f, args)
 def install8(ip):
-    ip.pattern_models = [(re.compile(r'^<dyn (for<.*?> )?Fn.* as Fn(Mut|Once)?<.*>>::call(_mut|_once)?$'), m_dyn_fn_call)] + ip.pattern_models
+    ip.pattern_models = [(re.compile(r'^<dyn (for<.*?> )?Fn.* as Fn(Mut|Once)?<.*>>::call(_mut|_once)?$'), m_dyn_fn_call), (re.compile(r'^<[A-Z]\w* as Fn(Mut|Once)?<.*>>::call(_mut|_once)?$'), m_dyn_fn_call)] + ip.pattern_models
 
 def m_arc_try_unwrap(ip, c, a): return res_ok(a[0].fields[0].v)
 def m_arc_ptr_eq(ip, c, a): return unref(a[0]) is unref(a[1])
@@ -857,7 +890,7 @@ def install11(ip):
         (re.compile(r'^String::push_str$'), m_string_push_str),
         (re.compile(r'^<(str|String) as Index<(std::ops::)?RangeFrom<usize>>>::index$'), m_str_index_rangefrom),
         (re.compile(r'^<(str|String) as Index<(std::ops::)?Range(To|Full)?(<usize>)?>>::index$'), m_str_index_range),
-        (re.compile(r'^<u64 as From<u8>>::from$|^<usize as From<.*>>::from$'), lambda ip, c, a: a[0]),
+        (re.compile(r'^<u64 as From<u(8|16|32|64)>>::from$|^<usize as From<.*>>::from$|^<String as From<&String>>::from$'), lambda ip, c, a: a[0]),
     ] + ip.pattern_models
 
 # ---- eighth batch: more iterator / option / result / vec surface
@@ -875,6 +908,7 @@ def iter_next2(ip, it):
             r = iter_next2(ip, Ref(t.fields[0]))
             if r.variant == 'None': return r
             o = ip.call_value(t.fields[1].v, [r.fields[0].v])
+            if not (isinstance(o, Agg) and o.ty == 'Option'): raise Unsupported("filter_map / flat_map closure returning %r" % (o,))
             if o.variant == 'Some': return o
     if t.ty == 'Cloned':
         r = iter_next2(ip, Ref(t.fields[0]))
@@ -1004,6 +1038,12 @@ def m_result_is_err(ip, c, a): return unref(a[0]).variant == 'Err'
 def m_result_map_err(ip, c, a):
     r = a[0]
     return r if r.variant == 'Ok' else res_err(ip.call_value(a[1], [r.fields[0].v]))
+def m_result_or_else(ip, c, a):
+    r = a[0]
+    return r if r.variant == 'Ok' else ip.call_value(a[1], [r.fields[0].v])
+def m_result_and_then(ip, c, a):
+    r = a[0]
+    return ip.call_value(a[1], [r.fields[0].v]) if r.variant == 'Ok' else r
 def m_result_map(ip, c, a):
     r = a[0]
     return res_ok(ip.call_value(a[1], [r.fields[0].v])) if r.variant == 'Ok' else r
@@ -1052,6 +1092,13 @@ def m_ord_cmp(ip, c, a):
     x, y = unref(a[0]), unref(a[1])
     if isinstance(x, str) and isinstance(y, str): return Agg('Ordering', 'Less' if x < y else ('Equal' if x == y else 'Greater'), [])
     return ip.binop(None, 'Cmp', x, y, None)
+def m_str_order(op):
+    def f(ip, c, a):
+        x, y = val_of_strlike(a[0]), val_of_strlike(a[1])
+        if isinstance(x, str) and isinstance(y, str): return {'lt': x < y, 'le': x <= y, 'gt': x > y, 'ge': x >= y}[op]
+        lt = T("(str.< %s %s)", 'Bool', smt_str(x), smt_str(y)); le = T("(str.<= %s %s)", 'Bool', smt_str(x), smt_str(y))
+        return {'lt': lt, 'le': le, 'gt': T("(not %s)", 'Bool', le.s), 'ge': T("(not %s)", 'Bool', lt.s)}[op]
+    return f
 def m_vec_retain(ip, c, a):
     v = unref(a[0]); items = v.fields[0].v; keep = []
     for x in items:
@@ -1152,24 +1199,31 @@ def m_as_bytes(ip, c, a):
             if n is None: n = ip.strlen_concrete(q)
             out.extend(Cell(CharOf(q, i, n)) for i in range(n))
     return Ref(Cell(out))
+def m_string_hash(ip, c, a):
+    """<String as Hash>::hash(&self, state): Hasher::write_str = write(bytes) followed by write_u8(0xff)"""
+    h = a[1]; t = unref(h)
+    w = ip.resolve('<%s as Hasher>::write' % t.ty)
+    if w is None: raise Unsupported("Hash::hash into " + t.ty)
+    b = m_as_bytes(ip, c, a).cell.v
+    ip.call_fn(w, [h, Ref(Cell(b + [Cell(0xff)]))]); return UNIT
 def m_into_bytes(ip, c, a): return Agg('Vec', None, [Cell(m_as_bytes(ip, c, a).cell.v)])
 
 def install12(ip):
     P = lambda rx, f: (re.compile(rx), f)
     ip.pattern_models = [
-        P(r' as Iterator>::filter_map$', m_iter_filter_map), P(r' as Iterator>::cloned$', m_iter_cloned), P(r' as Iterator>::skip$', m_iter_skip),
+        P(r' as Iterator>::filter_map$', m_iter_filter_map), P(r' as Iterator>::flat_map$', m_iter_filter_map), P(r' as Iterator>::cloned$', m_iter_cloned), P(r' as Iterator>::skip$', m_iter_skip),
         P(r' as Iterator>::take$', m_iter_take), P(r' as Iterator>::zip$', m_iter_zip), P(r' as Iterator>::rev$', m_iter_rev),
         P(r' as Iterator>::count$', m_iter_count), P(r' as Iterator>::last$', m_iter_last), P(r' as Iterator>::find$', m_iter_find),
         P(r' as Iterator>::position$', m_iter_position), P(r' as Iterator>::all$', m_iter_all), P(r' as Iterator>::sum$', m_iter_sum),
         P(r' as Iterator>::collect$', m_collect_any),
         P(r'^<(FilterMap|Cloned|Rev|Skip|Take|Zip|Chars|std::str::Chars|std::iter::\w+|std::ops::Range)<.* as Iterator>::next$', m_iter_next_any),
         P(r'^<(std::str::)?Chars<.*> as Iterator>::next$', m_iter_next_any),
-        P(r'^Result::ok$', m_result_ok), P(r'^Result::err$', m_result_err), P(r'^Result::is_err$', m_result_is_err), P(r'^Result::map_err$', m_result_map_err),
+        P(r'^Result::ok$', m_result_ok), P(r'^Result::err$', m_result_err), P(r'^Result::is_err$', m_result_is_err), P(r'^Result::map_err$', m_result_map_err), P(r'^Result::or_else$', m_result_or_else), P(r'^Result::and_then$', m_result_and_then),
         P(r'^Result::map$', m_result_map), P(r'^(Option|Result)::unwrap_or_else$', m_unwrap_or_else), P(r'^(Option|Result)::unwrap_or_default$', m_unwrap_or_default),
         P(r'^Option::ok_or$', m_option_ok_or), P(r'^(Option|Result)::and_then$', m_option_and_then), P(r'^Option::cloned$', m_option_cloned), P(r'^Option::filter$', m_option_filter),
         P(r'^Option::as_mut$', m_option_as_mut), P(r'^Option::take$', m_option_take), P(r'^(Option|Result)::unwrap_unchecked$', m_option_unwrap_unchecked),
         P(r'impl \[.*\]>::sort_by$', m_sort_by), P(r'^<[iu](\d+|size) as Ord>::cmp$|^<(String|str) as Ord>::cmp$', m_ord_cmp),
-        P(r'^Vec::retain$', m_vec_retain), P(r'^Vec::dedup$', m_vec_dedup), P(r'^Vec::clear$', m_vec_clear), P(r'^Vec::truncate$', m_vec_truncate),
+        P(r'^Vec::retain$', m_vec_retain), P(r'^<&?(str|String) as PartialOrd(<.*>)?>::lt$', m_str_order('lt')), P(r'^<&?(str|String) as PartialOrd(<.*>)?>::le$', m_str_order('le')), P(r'^<&?(str|String) as PartialOrd(<.*>)?>::gt$', m_str_order('gt')), P(r'^<&?(str|String) as PartialOrd(<.*>)?>::ge$', m_str_order('ge')), P(r'^Vec::dedup$', m_vec_dedup), P(r'^Vec::clear$', m_vec_clear), P(r'^Vec::truncate$', m_vec_truncate),
         P(r'^<Vec<.*> as Extend<.*>>::extend$', m_vec_extend), P(r'impl \[.*\]>::contains$', m_vec_contains),
         P(r'^<(Vec<.*>|\[.*\]) as Index(Mut)?<(std::ops::)?Range(From|To|Full)?(<usize>)?>>::index(_mut)?$', m_slice_index_range),
         P(r'impl \[.*\]>::first$', m_slice_first), P(r'impl \[.*\]>::get$', m_slice_get),
@@ -1326,7 +1380,7 @@ def install13(ip):
         P(r'impl str>::split_whitespace$', m_split_whitespace), P(r'impl str>::lines$', m_lines), P(r'impl str>::char_indices$', m_char_indices),
         P(r'impl str>::get$', m_str_get_range), P(r'impl char>::len_utf8$', m_char_len_utf8),
         P(r'impl char>::is_ascii_digit$|impl char>::is_numeric$', m_char_pred(lambda ch: ch.isdigit())), P(r'impl char>::is_whitespace$|impl char>::is_ascii_whitespace$', m_char_pred(lambda ch: ch.isspace())),
-        P(r'impl char>::is_alphanumeric$|impl char>::is_ascii_alphanumeric$', m_char_pred(lambda ch: ch.isalnum())), P(r'impl char>::is_alphabetic$|impl char>::is_ascii_alphabetic$', m_char_pred(lambda ch: ch.isalpha())), P(r'as (std::io::)?Write>::write_all$', m_write_all), P(r'as (std::io::)?Read>::read_exact$', m_read_exact), P(r' as IntoFuture>::into_future$', m_into_future),
+        P(r'impl char>::is_alphanumeric$|impl char>::is_ascii_alphanumeric$', m_char_pred(lambda ch: ch.isalnum())), P(r'impl char>::is_alphabetic$|impl char>::is_ascii_alphabetic$', m_char_pred(lambda ch: ch.isalpha())), P(r'as (std::io::)?Write>::write_all$', m_write_all), P(r'as (std::io::)?Read>::read_exact$', m_read_exact), P(r' as IntoFuture>::into_future$', m_into_future), P(r'^panic_fmt$|panicking::panic_fmt$', m_panic_fmt), P(r'^<(String|str) as Hash>::hash$', m_string_hash), P(r' as IntoKey>::into_key$', lambda ip, c, a: val_of_strlike(a[0])),
     ] + ip.pattern_models
     ip.pattern_models = ip.pattern_models + [(re.compile(r' as Clone>::clone$'), m_clone_generic)]
 
